@@ -48,6 +48,11 @@ func genC16(r *Rand, tier string) *Case {
 				// until Sync (no handler runs for them, and none may be left pending)
 				steps = append(steps, Step{Msgs: []pgwire.FMsg{{K: "B", S1: "", S2: "never-parsed"}, {K: "E"}, {K: "D", Sub: 'P', S1: ""}, {K: "S"}}})
 			}
+			if r.Chance(1, 6) {
+				// an oversized message: its answer is written outside any handler
+				// (and so outside what Close waits for)
+				steps = append(steps, Step{Msgs: []pgwire.FMsg{{K: "typed", T: 'Q', Pad: 5000, PadPat: []byte("oversized ")}}})
+			}
 			if r.Chance(1, 4) {
 				steps = append(steps, Step{Msgs: []pgwire.FMsg{{K: "P", S1: "", S2: key}, {K: "B"}, {K: "E"}, {K: "S"}}})
 			} else {
@@ -64,6 +69,14 @@ func genC16(r *Rand, tier string) *Case {
 		}
 		if r.Bool() {
 			cc.Cuts = []int{r.PickInt(1, 3, 5, 64)}
+		}
+		for _, st := range cc.Steps {
+			for _, m := range st.Msgs {
+				if m.Pad > 1000 && len(cc.Cuts) > 0 {
+					// (every read is a schedule decision: no fine segmentation of a bulk message)
+					cc.Cuts = []int{r.PickInt(512, 4096)}
+				}
+			}
 		}
 		if r.Chance(1, 5) {
 			// a stalled peer: from some write on it no longer reads
